@@ -264,6 +264,12 @@ def model_races(res, prep, info, tag):
         if not o.startswith("once"):
             wit.setdefault(l.split()[1], f"{l} -> {o}")
     res.cov["model_races"] = dict(zip(lines, out))
+    # one initialiser + one thread calling ovni_thread_init: READY must not be visible early
+    _, pout, _ = engine.run_lines(drv, ["publish gen"])
+    res.case("publish gen", nontrivial=True, validated=False)
+    res.cov["model_publication"] = pout[0] if pout else "<missing>"
+    if not pout or not pout[0].startswith("safe"):
+        wit["publication"] = "publish gen -> " + (pout[0] if pout else "<missing>")
     return wit
 
 
@@ -331,7 +337,13 @@ def check(res, tier, replay=None):
             found |= run_races(res, prep, plan, "c11")
             for w, line in wit.items():
                 res.cov.setdefault("model_witness", {})[w] = line
-                if not found:
+                if w == "publication":
+                    res.failed_obligations = getattr(res, "failed_obligations", []) + [
+                        "model: with the generated step list of ovni_proc_init a concurrent ovni_thread_init can see READY "
+                        f"before rproc is complete: {line} (no program that respects the API can show it on the library: "
+                        "ovni_thread_init may only be called after ovni_proc_init has returned)"]
+                    proved = False
+                elif not found:
                     res.failed_obligations = getattr(res, "failed_obligations", []) + [
                         f"model: the generated step list of ovni_proc_{w} admits a schedule with != 1 winner: {line} "
                         "(replayed on the library with the barrier stress harness: the race did not fire)"]
